@@ -131,5 +131,17 @@ class HeapModel:
     def map_arr(self, st, ks, vs):
         return self.arr(st, self.n_map(ks, vs), lambda: z3.ArraySort(I, z3.ArraySort(ks, vs)))
 
-    def dkeys_arr(self, st):
-        return self.arr(st, "dkeys", lambda: z3.ArraySort(I, I))
+    # ghost key list of a dict (insertion order), stored at the dict's own address
+    @staticmethod
+    def n_dklen(s):
+        return "dklen_" + sortname(s)
+
+    def dklen_arr(self, st, s):
+        return self.arr(st, self.n_dklen(s), lambda: z3.ArraySort(I, I))
+
+    @staticmethod
+    def n_dkel(s):
+        return "dkel_" + sortname(s)
+
+    def dkel_arr(self, st, s):
+        return self.arr(st, self.n_dkel(s), lambda: z3.ArraySort(I, z3.ArraySort(I, s)))
